@@ -83,6 +83,7 @@ def run(tier):
     n = 120 if tier == "quick" else 1500
     verdicts = {"accepted": 0, "ambiguous": 0, "other": 0}
     witness_checks, wmeta = [], []
+    disj_claims, disj_seen = [], set()
     cases = []
     nonascii = shadowed = 0
     AZ = ("cls", [(97, 122)], False)
@@ -125,6 +126,16 @@ def run(tier):
                     higher = [t["ast"] for t in terms if precedence(t, nr) > precedence(terms[a], nr)]
                     w2 = rx.overlap_witness(terms[a]["ast"], terms[b]["ast"], excl=higher) if higher else w
                     pairs.append((a, b, w, w2))
+                    if w2 is None:
+                        # claimed: every common string is also matched by a higher-precedence terminal
+                        hs = "(RAny [%s])" % "; ".join(rx.to_coq(h) for h in higher)
+                        dkey = (rx.to_coq(terms[a]["ast"]), rx.to_coq(terms[b]["ast"]), hs)
+                        if dkey not in disj_seen:
+                            disj_seen.add(dkey); disj_claims.append(dkey + (text,))
+                else:
+                    dkey = (rx.to_coq(terms[a]["ast"]), rx.to_coq(terms[b]["ast"]), "RNone")
+                    if dkey not in disj_seen:
+                        disj_seen.add(dkey); disj_claims.append(dkey + (text,))
         if undecided:
             continue
         cases.append((text, amb, pairs))
@@ -160,20 +171,35 @@ def run(tier):
     for i in bad[:2]:
         rep.violation("witness-rejected-by-model", {"what": "the overlap oracle's witness is not matched by both terminals in the Coq regex semantics (tools/rx.py and Lex/Regex.v disagree)",
                       "grammar_text": wmeta[i][0], "witness": wmeta[i][1], "broken": "tools/rx.py overlap oracle"}, nofail=True)
+    # every "no common string" answer the verdicts above relied on is re-derived by the verified procedure
+    hdr2 = "From Coq Require Import List NArith Bool.\nFrom LV Require Import Lex.Regex Lex.Disjoint.\nImport ListNotations.\n"
+    FUELD = 4000
+    dchecks = ["match disjoint_check %d %s %s %s with Some true => true | _ => false end" % (FUELD, a_, b_, h_) for (a_, b_, h_, _t) in disj_claims]
+    dbad = vlib.coq_eval_cases("c11d", hdr2, dchecks, shard_size=40) if dchecks else []
+    dund = []
+    if dbad:
+        again = ["match disjoint_check %d %s %s %s with None => true | _ => false end" % ((FUELD,) + disj_claims[i][:3]) for i in dbad]
+        notnone = set(vlib.coq_eval_cases("c11e", hdr2, again, shard_size=40))
+        for j, i in enumerate(dbad):
+            if j in notnone:
+                rep.violation("disjointness-refuted-by-model", {"what": "the overlap search claims that two equal-precedence terminals have no common string (not covered by a higher-precedence one) but the verified exploration finds one (tools/rx.py and Lex/Disjoint.v disagree)",
+                              "grammar_text": disj_claims[i][3], "r1": disj_claims[i][0], "r2": disj_claims[i][1], "h": disj_claims[i][2], "broken": "tools/rx.py overlap oracle or tools/rx.py to_coq"}, nofail=True)
+            else:
+                dund.append(i)
     distinct = len({c[0] for c in cases if c[2]})
-    cov = {"obligations": nobl + len(witness_checks) + len(cases) + nuns, "discharged": ndis + len(witness_checks) - len(bad) + len(cases) + nuns - len(rep.viol) - len(rep.known_hit),
-           "checker_cmd": "make -C coq; coqc Props/C11.v; coqc .cache/cases/c11/*.v (matchb on witnesses)",
-           "trusted_base": vlib.TRUSTED_COMMON + ["tools/rx.py overlap oracle (derivative product; its positive answers are re-checked in Coq, its negative answers are not)"],
+    cov = {"obligations": nobl + len(witness_checks) + len(dchecks) + len(cases) + nuns, "discharged": ndis + len(witness_checks) - len(bad) + len(dchecks) - len(dbad) + len(cases) + nuns - len(rep.viol) - len(rep.known_hit),
+           "checker_cmd": "make -C coq; coqc Props/C11.v; coqc .cache/cases/c11/*.v (matchb on witnesses); coqc .cache/cases/c11d/*.v (disjoint_check on every pair claimed disjoint)",
+           "trusted_base": vlib.TRUSTED_COMMON + ["tools/rx.py overlap oracle only as a search: its positive answers are re-checked on the witness by matchb, its negative answers are re-derived by the verified disjoint_check (pairs left undecided within the fuel are counted in the distribution)", "tools/rx.py to_coq (regex AST to byte-level re)"],
            "theorems": names, "evaluations": len(cases) + nuns, "distinct_nontrivial": distinct,
            "rule": "terminal sets of 2-4 literals/regexes over 0-2 match rungs (identifier/keyword shapes, nullable bodies, non-ASCII literals and classes, random regexes) through lalrpop; "
                    "spec = some equal-precedence pair has a common string; non-trivial = sets with at least one overlapping equal-precedence pair; plus 7 unsupported-feature regexes",
-           "distribution": dict(verdicts, with_overlap=distinct, non_ascii_sets=nonascii, shadowed_overlaps=shadowed, witnesses_checked_in_coq=len(witness_checks)),
+           "distribution": dict(verdicts, with_overlap=distinct, non_ascii_sets=nonascii, shadowed_overlaps=shadowed, witnesses_checked_in_coq=len(witness_checks), disjoint_pairs_proved_in_coq=len(dchecks) - len(dbad), disjoint_pairs_undecided_within_fuel=len(dund)),
            "samples": [{"grammar_text": c[0], "lalrpop_says_ambiguous": c[1], "overlapping_pairs": [(p[0], p[1], p[2]) for p in c[2]]} for c in cases[:2]]}
     cov["discharged"] = max(1, min(cov["discharged"], cov["obligations"]))
     if not rep.viol:
         cov["discharged"] = cov["obligations"]
     vlib.write_evidence(PROP, tier, "proof", cov, time.time() - t0, violations=len(rep.viol),
-                        assumptions=["'no common string' answers of the overlap oracle are not kernel-checked"])
+                        assumptions=["strings are byte strings (UTF-8); a pair left undecided by disjoint_check within its fuel is reported in the distribution, not assumed"])
     return rep.finish()
 
 
